@@ -252,6 +252,11 @@ type zzS4 struct {
 	VisitedPLMN      datatype.OctetString      `avp:"Visited-PLMN-Id"`    // vendor 10415, must="M,V"
 	OriginHost       datatype.DiameterIdentity `avp:"Origin-Host"`        // base application, through the parent chain
 	RuleBase         datatype.UTF8String       `avp:"ADC-Rule-Base-Name"` // parent application 4, vendor 10415, must="V,M" (M not listed first)
+	Failed           zzFailedS6a               `avp:"Failed-AVP"`         // a group the base application declares, holding a member only S6a declares
+}
+
+type zzFailedS6a struct {
+	VisitedPLMN datatype.OctetString `avp:"Visited-PLMN-Id"`
 }
 
 func zzC18_s4() {
@@ -260,6 +265,7 @@ func zzC18_s4() {
 		VisitedPLMN:      datatype.OctetString(zzSymStr("plmn", 3)),
 		OriginHost:       datatype.DiameterIdentity(zzSymStr("oh", 1)),
 		RuleBase:         datatype.UTF8String(zzSymStr("rb", 2)),
+		Failed:           zzFailedS6a{VisitedPLMN: datatype.OctetString(zzSymStr("fplmn", 3))},
 	}
 	m := NewRequest(316, 16777251, dict.Default)
 	err := m.Marshal(&src)
@@ -272,11 +278,12 @@ func zzC18_s4() {
 		zzHandAVP(m, "Visited-PLMN-Id", src.VisitedPLMN),
 		zzHandAVP(m, "Origin-Host", src.OriginHost),
 		zzHandAVP(m, "ADC-Rule-Base-Name", src.RuleBase),
+		zzHandAVP(m, "Failed-AVP", &GroupedAVP{AVP: []*AVP{zzHandAVP(m, "Visited-PLMN-Id", src.Failed.VisitedPLMN)}}),
 	}
 	// independent of zzHandAVP: the vendor-specific ones carry V and the dictionary's vendor id
-	vAssert(want[0].VendorID == 10415 && want[1].VendorID == 10415 && want[2].VendorID == 0 && want[3].VendorID == 10415, "dictionary vendor ids")
-	vAssert(len(m.AVP) == 4, "one AVP per field")
-	if len(m.AVP) == 4 {
+	vAssert(want[0].VendorID == 10415 && want[1].VendorID == 10415 && want[2].VendorID == 0 && want[3].VendorID == 10415 && want[4].VendorID == 0, "dictionary vendor ids")
+	vAssert(len(m.AVP) == 5, "one AVP per field")
+	if len(m.AVP) == 5 {
 		for i := range want {
 			zzSameAVP(m.AVP[i], want[i], "marshalled vendor-specific AVP")
 		}
